@@ -206,24 +206,28 @@ def tail(s, n):
     return "\n".join(s.strip().split("\n")[-n:])
 
 
-def build_harness(release=False, guard=True, target=None):
-    env = {"CARGO_NET_OFFLINE": "true", "CARGO_TARGET_DIR": target or TARGET,
+def build_harness(release=False, guard=True, target=None, crate="harness", binname="vh"):
+    target = target or (TARGET if crate == "harness" else os.path.join(BUILD, "target-" + crate))
+    env = {"CARGO_NET_OFFLINE": "true", "CARGO_TARGET_DIR": target,
            "RUSTFLAGS": ("--cfg %s" % GUARD) if guard else ""}
     cmd = ["cargo", "build", "--offline", "--quiet"] + (["--release"] if release else [])
     t = time.time()
-    rc, out = sh(["timeout", "1500"] + cmd, cwd=HARNESS, env=env)
-    binp = os.path.join(target or TARGET, "release" if release else "debug", "vh")
+    rc, out = sh(["timeout", "1500"] + cmd, cwd=os.path.join(VERIF, crate), env=env)
+    binp = os.path.join(target, "release" if release else "debug", binname)
     errs = [l for l in out.split("\n") if l.startswith("error")]
     return dict(ok=(rc == 0 and os.path.exists(binp)), bin=binp, out=tail(out, 40) if rc else "",
                 errors=errs, wall_s=time.time() - t)
 
 
-def run_harness(binp, engine, cases, shards=16, timeout=900, extra_env=None):
+def run_harness(binp, engine, cases, shards=16, timeout=900, extra_env=None, one_per_process=False):
     """Runs the real code on every case. Returns dict id -> result (None when the worker died)."""
     if not cases:
         return {}
-    shards = max(1, min(shards, len(cases)))
-    chunks = [cases[i::shards] for i in range(shards)]
+    if one_per_process:
+        chunks = [[c] for c in cases]
+    else:
+        shards = max(1, min(shards, len(cases)))
+        chunks = [cases[i::shards] for i in range(shards)]
 
     def parse(out, res):
         for line in out.split("\n"):
@@ -262,7 +266,7 @@ def run_harness(binp, engine, cases, shards=16, timeout=900, extra_env=None):
 
     results = {}
     died = []
-    with cf.ThreadPoolExecutor(max_workers=shards) as ex:
+    with cf.ThreadPoolExecutor(max_workers=min(16, max(1, len(chunks)))) as ex:
         for res, rc, err in ex.map(work, chunks):
             results.update(res)
             if rc != 0:
